@@ -54,6 +54,26 @@ def split_generics(s):
 _payload_cache = {}
 
 
+def tuple_elem_ty(ty, i):
+    """i-th element type of a tuple type string `(A, B, ..)`, or None"""
+    if not ty or not ty.startswith("(") or not ty.endswith(")"):
+        return None
+    depth, cur, parts = 0, "", []
+    for ch in ty[1:-1]:
+        if ch in "(<[":
+            depth += 1
+        elif ch in ")>]":
+            depth -= 1
+        if ch == "," and depth == 0:
+            parts.append(cur.strip())
+            cur = ""
+        else:
+            cur += ch
+    if cur.strip():
+        parts.append(cur.strip())
+    return parts[i] if 0 <= i < len(parts) else None
+
+
 def payload_ty(ty):
     """integer payload type of a (carrier) type, or None"""
     r = _payload_cache.get(ty)
@@ -197,6 +217,7 @@ class Analysis:
         self.ret = {}        # fn -> V|None (None = no normal return seen yet)
         self.post = {}       # fn -> {param_index: (lo,hi)} facts that hold whenever fn returns normally / returns Ok
         self.post_ok = {}    # fn -> {param_index: (lo,hi)} facts that hold when fn returns Ok(..)/Some(..)
+        self.ret_tuple = {}  # fn -> {i: value} components of a returned tuple
         self.param_pow2 = {}  # fn -> set of parameter indices that are a power of two at every call site
         self.param_rel = {}  # fn -> set of (i, j): parameter i <= parameter j at every call site
         self.field = {}      # (adt, field) -> V
@@ -237,6 +258,17 @@ class Analysis:
             self.ret[fid] = new
             self.changed = True
             for c in self.prog.callers().get(fid, ()):  # callers need re-analysis
+                self.dirty.add(c)
+
+    def join_ret_tuple(self, fid, comps, rty):
+        old = self.ret_tuple.get(fid)
+        new = dict(comps) if old is None else {i: vjoin(old[i], comps[i]) for i in comps if i in old}
+        if new != old:
+            if old is not None and self._bump(("rt", fid)) > WIDEN_AFTER:
+                new = {i: ((lambda t, v: (t[0], t[1], v[2] | WSET, False))(top_of(tuple_elem_ty(rty, i)), v) if v[0] is not None else v) for i, v in new.items()}
+            self.ret_tuple[fid] = new
+            self.changed = True
+            for c in self.prog.callers().get(fid, ()):
                 self.dirty.add(c)
 
     def join_field(self, key, v, ty):
@@ -333,7 +365,14 @@ class FnPass:
     def default(self, l):
         if l == -1:
             return (0, 1, EMPTY, False)
+        if isinstance(l, tuple):
+            # ("T", local, i): the i-th component of a tuple-typed local
+            return top_of(tuple_elem_ty(self.fn.local_ty(l[1]), l[2]) or "?")
         return top_of(self.fn.local_ty(l))
+
+    def _clear_tuple(self, st, l):
+        for k in [k for k in st if isinstance(k, tuple) and len(k) == 3 and k[0] == "T" and k[1] == l]:
+            del st[k]
 
     def get(self, st, l):
         v = st.get(l)
@@ -366,6 +405,8 @@ class FnPass:
         base = p[0]
         projs = p[1]
         fty = p[2]
+        if len(projs) == 1 and projs[0][0] == "." and not projs[0][3] and ("T", base, projs[0][1]) in st and fn.local_ty(base).startswith("("):
+            return st[("T", base, projs[0][1])]
         bv = self.get(st, base)
         taint = bv[2]
         pty = payload_ty(fty)
@@ -1513,6 +1554,18 @@ class FnPass:
                 st.pop(place, None)
             else:
                 st[place] = v
+            if dty.startswith("("):
+                self._clear_tuple(st, place)
+                if rv[0] == "agg" and rv[1][0] == "tuple":
+                    for i_, o_ in enumerate(rv[2]):
+                        if payload_ty(tuple_elem_ty(dty, i_) or "") is not None:
+                            cv = self.read_operand(st, o_)
+                            if cv[0] is not None and cv[0] != "bot":
+                                st[("T", place, i_)] = cv
+                elif rv[0] == "use" and isinstance(op_place(rv[1]), int):
+                    src_ = op_place(rv[1])
+                    for k_ in [k for k in st if isinstance(k, tuple) and len(k) == 3 and k[0] == "T" and k[1] == src_]:
+                        st[("T", place, k_[2])] = st[k_]
             if place == 0:
                 st.pop(-1, None)
                 if rv[0] == "agg" and rv[1][0] == "adt":
@@ -1562,6 +1615,14 @@ class FnPass:
     def on_return(self, st):
         fn = self.fn
         rty = fn.local_ty(0)
+        if rty.startswith("("):
+            comps = {}
+            i_ = 0
+            while tuple_elem_ty(rty, i_) is not None:
+                if payload_ty(tuple_elem_ty(rty, i_)) is not None:
+                    comps[i_] = st.get(("T", 0, i_)) or self.default(("T", 0, i_))
+                i_ += 1
+            self.an.join_ret_tuple(fn.id, comps, rty)
         v = self.get(st, 0)
         if v[0] == "bot":
             # Err(..)/None: contributes taint only
@@ -1993,6 +2054,11 @@ class FnPass:
                 st.pop(dest, None)
             else:
                 st[dest] = result
+            if dty.startswith("("):
+                self._clear_tuple(st, dest)
+                for i_, cv in (an.ret_tuple.get(callee) or {}).items():
+                    if cv[0] is not None and cv[0] != "bot":
+                        st[("T", dest, i_)] = (cv[0], cv[1], cv[2] | (result[2] if result else EMPTY), cv[3])
             if dest == 0:
                 st.pop(-1, None)
                 if callee and "FromResidual" in callee:
